@@ -59,3 +59,28 @@ def run_control(ctx: CheckContext, name: str, analyse: Callable, root: str, relp
             g2, _ = _outcome(analyse, root, ov2, base_bad, ctx.prop, ctx.tier, expect_rule)
             live = f" | current tree: {g2}"
     ctx.control(name, want, got, note=(note + " | " if note else "") + "on reference tree" + live)
+
+
+def anchor_funcs(p: Program, prop: str, extra_modules=()):
+    """functions defined in the modules the property is anchored in (anchors.files of /verif/properties.jsonl, which is given and fixed)"""
+    import json
+    files = set(extra_modules)
+    with open(os.path.join(VERIF, "properties.jsonl")) as fh:
+        for line in fh:
+            if line.strip():
+                rec = json.loads(line)
+                if rec["id"] == prop:
+                    files |= set(rec["anchors"]["files"])
+    funcs = [f for f in p.all_funcs if f.module.relpath in files]
+    if not funcs:
+        raise AnalysisError(f"none of the modules {prop} is anchored in could be found: {sorted(files)}")
+    return funcs
+
+
+def generic_rules(ctx: CheckContext, p: Program, r, prop: str):
+    """repository-wide disciplines, applied to the code the property is anchored in"""
+    from ..rules import argtype, memo, truthy
+    funcs = anchor_funcs(p, prop)
+    truthy.check_truthiness(ctx, p, r, funcs)
+    memo.check_all(ctx, p, r, funcs)
+    argtype.check_argument_kinds(ctx, p, r, funcs)
